@@ -267,3 +267,174 @@ def ghosts(objs, k=12, generation=0):
         except Exception:  # pylint: disable=broad-except
             pass
     gc.collect(generation)
+
+
+# ----------------------------------------------------------------------------- call history on function-like objects (hardener hg3)
+def churn(make, queries, args, drop=None):
+    """id()-keyed state: create short-lived objects of the kind under test (`make(arg)` for every arg), ask each of
+    them `queries` (callables taking the object; results and exceptions discarded), drop them all (`drop()` - e.g. a
+    cache reset of the library - then gc.collect()), so that objects created afterwards are likely to be allocated
+    at recycled addresses.  Nothing is returned: the caller creates and queries its own object afterwards."""
+    import gc
+    objs = []
+    for x in args:
+        o = quiet(make, x)
+        if o is None:
+            continue
+        objs.append(o)
+        for q in queries:
+            quiet(q, o)
+    del objs
+    o = None
+    if drop is not None:
+        quiet(drop)
+    gc.collect()
+
+
+def after_histories(fn, histories):
+    """the answer of fn() after each of several different histories (callables run before, exceptions discarded):
+    all the answers must be the same (fn builds its own fresh objects each time)"""
+    res = []
+    for h in histories:
+        quiet(h)
+        res.append(fn())
+    for r in res[1:]:
+        if r != res[0]:
+            return unstable(res[0], r)
+    return res[0]
+
+
+def grown_list(fn, items, first=None):
+    """argument aliasing on a list argument: fn is first called with a list holding only part of the items (`first`,
+    default: all but the last; when there is one item only, a list holding that item twice - an equal-length
+    DIFFERENT list would need a foreign item), then THE SAME list object is changed in place to hold exactly `items`
+    and fn is called with it again.  Returns that second answer - it must be the answer of a call with a fresh
+    list.  Results/exceptions of the first call are discarded."""
+    items = list(items)
+    if first is None:
+        first = items[:-1] if len(items) > 1 else items + items
+    lst = list(first)
+    quiet(fn, lst)
+    lst[:] = items
+    return fn(lst)
+
+
+def shrunk_list(fn, items, extra):
+    """as grown_list, but the first call sees the items plus `extra` appended, which are then removed in place"""
+    lst = list(items) + list(extra)
+    quiet(fn, lst)
+    del lst[len(list(items)):]
+    return fn(lst)
+
+
+def spoil(result):
+    """mutate a returned container in place as a caller might (clear lists/dicts/sets, nested one level);
+    exceptions (immutable results) are ignored"""
+    try:
+        if isinstance(result, dict):
+            for v in list(result.values()):
+                if isinstance(v, (list, dict, set)):
+                    quiet(v.clear)
+            result.clear()
+        elif isinstance(result, (list, set)):
+            for v in list(result):
+                if isinstance(v, (list, dict, set)):
+                    quiet(v.clear)
+            result.clear()
+    except Exception:  # pylint: disable=broad-except
+        pass
+
+
+# ----------------------------------------------------------------------------- look-alike permutations
+def _retokenise(s, n, budget=4000):
+    """all ways (at most 4, search budget bounded) to read the digit string s as a permutation of 0..n-1"""
+    out = []
+    seen = [False] * n
+    cur = []
+    steps = [0]
+
+    def go(i):
+        steps[0] += 1
+        if steps[0] > budget or len(out) >= 4:
+            return
+        if i == len(s):
+            if len(cur) == n:
+                out.append(tuple(cur))
+            return
+        if s[i] == "0":
+            cands = [0]
+        else:
+            cands = []
+            v = 0
+            for j in range(i, min(i + 4, len(s))):
+                v = v * 10 + int(s[j])
+                if v >= n:
+                    break
+                cands.append(v)
+        for v in cands:
+            if not seen[v]:
+                seen[v] = True
+                cur.append(v)
+                go(i + len(str(v)))
+                cur.pop()
+                seen[v] = False
+    go(0)
+    return out
+
+
+def lookalikes(p, rng=None):
+    """permutations of the same length as p, different from p, that a lossy key / a truncated comparison could
+    confuse with p: the same decimal concatenation ''.join(map(str, p)) (length >= 11 only), the same first 8 / 10 /
+    16 / 32 entries, the same last entries, the same entries modulo 10 / modulo 256 (two values that differ by 10 resp.
+    256 exchanged), the same set of adjacent pairs up to one exchange of the two largest values, the same sum of
+    position*value is not attempted.  Deterministic unless rng is given (then the exchanged values are drawn)."""
+    p = tuple(p)
+    n = len(p)
+    res = []
+
+    def add(q):
+        q = tuple(q)
+        if q != p and q not in res and sorted(q) == list(range(n)):
+            res.append(q)
+    if 11 <= n <= 80:
+        for q in _retokenise("".join(map(str, p)), n):
+            add(q)
+    elif n > 80:
+        # the same by construction: adjacent entries a, b and the entry whose decimal form is str(a) + str(b)
+        # change places (... a b ... ab ...  <->  ... ab ... a b ...)
+        pos = {v: i for i, v in enumerate(p)}
+        for i in range(n - 1):
+            a, b = p[i], p[i + 1]
+            if b == 0 and a != 0:
+                v = a * 10
+            elif a != 0 and b != 0:
+                v = int(str(a) + str(b))
+            else:
+                continue
+            j = pos.get(v)
+            if v < n and j is not None and j not in (i, i + 1):
+                if j > i:
+                    add(p[:i] + (v,) + p[i + 2:j] + (a, b) + p[j + 1:])
+                else:
+                    add(p[:j] + (a, b) + p[j + 1:i] + (v,) + p[i + 2:])
+                if len(res) >= 2:
+                    break
+
+    def swap_vals(a, b):
+        return tuple(b if v == a else a if v == b else v for v in p)
+    for k in (8, 10, 16, 32, 64, 256):
+        if n >= k + 2:
+            # same first k entries: the last two entries exchanged; same last k entries: the first two exchanged
+            add(p[:-2] + (p[-1], p[-2]))
+            add((p[1], p[0]) + p[2:])
+            # same first k entries, the entries at positions k and k+1 exchanged (just beyond the threshold)
+            add(p[:k] + (p[k + 1], p[k]) + p[k + 2:])
+    if n >= 12:
+        a = rng.randrange(0, n - 10) if rng else 1
+        add(swap_vals(a, a + 10))
+    if n >= 258:
+        a = rng.randrange(0, n - 256) if rng else 1
+        add(swap_vals(a, a + 256))
+    if n >= 3:
+        add(swap_vals(n - 1, n - 2))
+    return res
